@@ -505,4 +505,13 @@ def expand_operator(
     for i, ind in enumerate(rest_pos):
         new_order[ind] = rest_qubits[i]
     id_list = [identity(dims[i]) for i in rest_pos]
-    return tensor([oper] + id_list).permute(new_order).to(dtype)
+    out = tensor([oper] + id_list)
+    # Permute on the data layer with the explicit tensor structure: the dims
+    # of `out` cannot be relied on, 1-dimensional spaces may have been merged.
+    structure = [dims[t] for t in targets] + [dims[i] for i in rest_pos]
+    data = _data.permute.dimensions(out.data, structure, new_order)
+    return Qobj(data,
+                dims=[list(dims), list(dims)],
+                isherm=out._isherm,
+                isunitary=out._isunitary,
+                copy=False).to(dtype)
